@@ -330,14 +330,15 @@ func ruleResetRearms(c *Check, p *Program, rule string) {
 			continue
 		}
 		var hasState, hasFrame, hasSrc bool
-		for _, ci := range callsIn(fn) {
-			if calleeIs(ci, pkgRoot, "_State.reset") && len(relAtoms(ci.Block(), nil)) == 0 {
-				hasState = true
-			}
-			if calleeIs(ci, pkgStream, "Frame.Reset") && len(relAtoms(ci.Block(), nil)) == 0 {
-				hasFrame = true
-			}
+		onAll := func(pkg, name string) bool {
+			miss, _ := reachAvoid(fn, nil, isReturn, func(in ssa.Instruction) bool {
+				ci, ok := in.(ssa.CallInstruction)
+				return ok && (calleeIs(ci, pkg, name) || callReaches(ci, func(x ssa.CallInstruction) bool { return calleeIs(x, pkg, name) }))
+			})
+			return !miss
 		}
+		hasState = onAll(pkgRoot, "_State.reset")
+		hasFrame = onAll(pkgStream, "Frame.Reset")
 		allInstrs(fn, func(in ssa.Instruction) {
 			if st, ok := in.(*ssa.Store); ok && lastField(st.Addr) == t+".src" {
 				if _, isP := st.Val.(*ssa.Parameter); isP {
@@ -345,7 +346,7 @@ func ruleResetRearms(c *Check, p *Program, rule string) {
 				}
 			}
 		})
-		c.Cond(hasState && hasFrame && hasSrc, rule, t+".Reset#rearms", p.Pos(fn.Pos()), "Reset unconditionally resets the lifecycle state, the frame, and installs the new stream", "state.reset(), frame.Reset(), src = argument", fmt.Sprintf("state.reset: %v, frame.Reset: %v, src stored: %v", hasState, hasFrame, hasSrc))
+		c.Cond(hasState && hasFrame && hasSrc, rule, t+".Reset#rearms", p.Pos(fn.Pos()), "Reset resets the lifecycle state and the frame on every path, and installs the new stream", "state.reset(), frame.Reset(), src = argument", fmt.Sprintf("state.reset: %v, frame.Reset: %v, src stored: %v", hasState, hasFrame, hasSrc))
 	}
 	// _State.reset restores states[0] and clears the error
 	if fn := findFn(c, p, rule, "", "_State.reset"); fn != nil {
